@@ -63,6 +63,8 @@ TRAJ = {t.name: t for t in [
     Traj("NL59_north_600kt", C.TRANS[59] - 0.01, 5.0, 0, 600),
     Traj("NL4_north_18kt", C.TRANS[4] - 0.005, -120.0, 0, 18),
     Traj("equator_south_600kt", 0.02, -30.0, 180, 600),
+    Traj("NL48_south_480kt", -C.TRANS[48] + 0.004, 174.8, 180, 480),
+    Traj("NL30_southern_north_600kt", -C.TRANS[30] - 0.01, -70.0, 0, 600),
     Traj("antimeridian_east_600kt", 52.0, 179.97, 90, 600),
     Traj("lon0_west_600kt", -33.9, 0.03, 270, 600),
     Traj("lat86.3_east_300kt", 86.3, 179.5, 90, 300),
